@@ -210,6 +210,8 @@ func runC15(c *Ctx) {
 	}
 
 	checkHCLKeys(c, "R15b", []string{pSpecutil, pSqlspec, pSqlite, pMysql, pPostgres, pHCL}, "hcl")
+	c.Rule("R15e", "attribute guard independence: an optional HCL attribute written from field F of an object is not made conditional on a comparison of a different field G of the same object with a constant (each optional attribute is omitted only because of its own default)", 10)
+	checkAttrGuards(c)
 
 	// R15c
 	fieldNames := map[string]bool{}
@@ -385,4 +387,79 @@ func runC03(c *Ctx) {
 	}
 	c.Check("R03c", "inspect/export path|map iterations are order-insensitive", token.NoPos, bad == 0, "%d order-sensitive map iterations", bad)
 	c.Note("R03c examined %d map-range sites in the SQLite inspector, spec code and cmdlog", n)
+}
+
+// checkAttrGuards: see R15e.
+func checkAttrGuards(c *Ctx) {
+	n := 0
+	for _, pp := range []string{pSpecutil, pSqlite, pMysql, pPostgres} {
+		c.AllFuncs(false, func(fi *FuncInfo) {
+			if fi.Pkg.PkgPath != pp {
+				return
+			}
+			info := fi.Info()
+			pm := parentMap(fi.Decl.Body)
+			ast.Inspect(fi.Decl.Body, func(m ast.Node) bool {
+				call, ok := m.(*ast.CallExpr)
+				if !ok || len(call.Args) < 2 {
+					return true
+				}
+				fn := calleeOf(info, call)
+				if fn == nil || !hclWriterFuncs[fn.Name()] || fn.Pkg() == nil || (fn.Pkg().Path() != pHCL && fn.Pkg().Path() != pSpecutil) {
+					return true
+				}
+				key, ok := stringConst(info, call.Args[0])
+				if !ok {
+					return true
+				}
+				// the value: a selector path base.F somewhere in the value argument
+				var base, field string
+				ast.Inspect(call.Args[1], func(k ast.Node) bool {
+					if se, ok := k.(*ast.SelectorExpr); ok && base == "" {
+						if p := selPath(se.X); p != "" && fieldOf(info, se) != nil {
+							base, field = p, se.Sel.Name
+						}
+					}
+					return true
+				})
+				if base == "" {
+					return true
+				}
+				bad := ""
+				child := ast.Node(call)
+				guarded := false
+				for p := pm[call]; p != nil; child, p = p, pm[p] {
+					ifs, ok := p.(*ast.IfStmt)
+					if !ok || !(ifs.Body.Pos() <= child.Pos() && child.End() <= ifs.Body.End()) {
+						continue
+					}
+					guarded = true
+					for _, fct := range impliedFacts(ifs.Cond, true) {
+						be, ok := fct.expr.(*ast.BinaryExpr)
+						if !ok {
+							continue
+						}
+						for _, side := range [][2]ast.Expr{{be.X, be.Y}, {be.Y, be.X}} {
+							se, ok := side[0].(*ast.SelectorExpr)
+							if !ok || fieldOf(info, se) == nil || selPath(se.X) != base || se.Sel.Name == field {
+								continue
+							}
+							if tv := info.Types[side[1]]; tv.Value != nil {
+								bad = types.ExprString(be)
+							}
+						}
+					}
+				}
+				if !guarded {
+					return true
+				}
+				n++
+				c.Check("R15e", fi.Name+"|attr "+key+" from "+base+"."+field, call.Pos(), bad == "", "the optional attribute %q (value %s.%s) is written only when `%s` holds, a condition on a different field of the same object: with that field at its default the attribute is dropped and the value is lost on re-evaluation", key, base, field, bad)
+				return true
+			})
+		})
+	}
+	if n == 0 {
+		c.Unresolved("R15e", "guarded HCL attribute writes")
+	}
 }
